@@ -57,6 +57,19 @@ class Unit:
         origin = '%s:%d-%d' % (rel, s.line_of(a), s.line_of(b - 1))
         self.chunks.append(('code', origin, s.text[a:b]))
 
+    def consts(self, rel):
+        """Copy every module-level `const NAME: T = …;` of the file (names are not anchors: a
+        renamed or added constant is still extracted)."""
+        s = self.src(rel)
+        n = 0
+        for m in re.finditer(r'(?m)^(?:pub(?:\([a-z]+\))?\s+)?const\s+[A-Z][A-Z0-9_]*\s*:', s.code):
+            a, b = s.item_span(re.escape(m.group(0)), lo=m.start(), hi=None)
+            origin = '%s:%d-%d' % (rel, s.line_of(a), s.line_of(b - 1))
+            self.chunks.append(('code', origin, s.text[a:b]))
+            n += 1
+        if n == 0:
+            raise ExtractError('%s: no module-level const items' % rel)
+
     def items(self, rel, *headers):
         for h in headers:
             self.item(rel, h)
